@@ -1,7 +1,7 @@
 (* The round-trip theorem of the generic serde model: de (ser v) = Some v for well-typed values without
    non-finite floats, under the decidable schema condition `schema_ok`. *)
 From Coq Require Import List NArith ZArith Bool Lia.
-From PV Require Import Lib.ListX Model.Json Model.Serde Proofs.SerdeCodecProofs.
+From PV Require Import Lib.ListX Model.Json Model.VersionReq Model.Serde Proofs.SerdeCodecProofs Proofs.VersionReqProofs.
 Import ListNotations.
 
 (* ---------- sizes ---------- *)
@@ -708,7 +708,8 @@ Section Proofs.
       cbn [Serde.ser de_body de_opaque]. rewrite span_codec_roundtrip by assumption. reflexivity.
     - (* Ident *)
       cbn [Serde.ser de_body de_opaque]. rewrite ident_codec_roundtrip. reflexivity.
-    - (* VersionReq *) reflexivity.
+    - (* VersionReq: Display then from_str gives the same text *)
+      cbn [Serde.ser de_body de_opaque]. rewrite vreq_normal_roundtrip by assumption. reflexivity.
   Qed.
 
   Theorem serde_roundtrip d v :
